@@ -175,9 +175,29 @@ func (c *Ctx) ruleEOFScope() {
 			conj(ifs.Cond)
 			return true
 		})
+		// the emptiness of the include stack is asked about the file that has just ended: the test must not come after
+		// a Pop of that stack in the same function (after the Pop, Empty() speaks about the file that is resumed)
+		afterPop := false
+		if pop := c.P.LookupFunc("scanner", "Stack.Pop"); pop != nil {
+			fcf := buildCFG(f.Decl.Body)
+			ast.Inspect(f.Decl.Body, func(n ast.Node) bool {
+				ifs, ok := n.(*ast.IfStmt)
+				if !ok || len(callsIn(pk, ifs.Cond, huc)) == 0 {
+					return true
+				}
+				for _, pc := range callsIn(pk, f.Decl.Body, pop) {
+					if fcf.reachesWithout(pc, ifs.Cond, nil) {
+						afterPop = true
+					}
+				}
+				return true
+			})
+		}
 		switch {
 		case !found:
 			r.Bad("C09-EOF-SCOPE", "processEOF", "no open-context test at end of file", c.pos(f.Decl.Pos()))
+		case afterPop:
+			r.Bad("C09-EOF-SCOPE", "processEOF", "the include stack is popped before it is asked whether it is empty: the open-context error then fires when the ROOT file is resumed after an INCLUDE, although the context may still be closed there", c.pos(f.Decl.Pos()))
 		case res:
 			r.Ok("C09-EOF-SCOPE", "processEOF", "the error needs scannersStack.Empty(): only the end of the ROOT file closes the document", c.pos(f.Decl.Pos()))
 		default:
